@@ -1,4 +1,5 @@
 import WfModel.Generated
+import WfModel.GenDeployId
 /-!
 M13 — deployment-id derivation (`control_plane/k8s_client.py`:
 `find_deployment_id`, `_append_random_suffix`).
@@ -84,6 +85,9 @@ def findLoop (base : List Char) :
       | [] => none
       | d :: ds' => findLoop base n (appendSuffix base d) answers' ds'
 
+/-- iterations of `for i in range(loopStart, loopStop)` (bounds regenerated from the source) -/
+def loopCount : Nat := Gen.DeployId.loopStop - Gen.DeployId.loopStart
+
 def needsSuffix (name : List Char) (force : Bool) : Bool :=
   decide (alnumCount name < Gen.C32.minLength) || force
 
@@ -93,8 +97,73 @@ def findId (name : List Char) (force : Bool) (answers : List Bool) (ds : List Dr
   if needsSuffix name force then
     match ds with
     | [] => none
-    | d :: ds' => findLoop base 99 (appendSuffix base d) answers ds'
-  else findLoop base 99 base answers ds
+    | d :: ds' => findLoop base loopCount (appendSuffix base d) answers ds'
+  else findLoop base loopCount base answers ds
+
+/-- the ids `find_deployment_id` passes to `validate_deployment_id`, in order, when every answer
+is "taken" and draws never run out: the base id (unless a suffix is needed at once), then one
+freshly suffixed base per draw -/
+def cands (name : List Char) (force : Bool) (ds : List Draw) : List (List Char) :=
+  let base := baseId name
+  if needsSuffix name force then ds.map (appendSuffix base) else base :: ds.map (appendSuffix base)
+
+/-- the same loop with `validate_deployment_id` as a function of the lookup's index and of the
+id it is asked about (the cluster may change between lookups).  Result: the id and the number
+of lookups made, or `none` (the `ValueError`) with the number of lookups. -/
+def findLoopO (base : List Char) (avail : Nat → List Char → Bool) :
+    Nat → Nat → List Char → List Draw → Option (List Char) × Nat
+  | 0, k, _, _ => (none, k)
+  | n + 1, k, cur, ds =>
+    if avail k cur then (some cur, k + 1)
+    else
+      match ds with
+      | [] => (none, k + 1)
+      | d :: ds' => findLoopO base avail n (k + 1) (appendSuffix base d) ds'
+
+def findIdO (avail : Nat → List Char → Bool) (name : List Char) (force : Bool) (ds : List Draw) :
+    Option (List Char) × Nat :=
+  let base := baseId name
+  if needsSuffix name force then
+    match ds with
+    | [] => (none, 0)
+    | d :: ds' => findLoopO base avail loopCount 0 (appendSuffix base d) ds'
+  else findLoopO base avail loopCount 0 base ds
+
+/-- the answers the oracle gives when asked about `cs` in order, starting at lookup `k` -/
+def oracleAnswers (avail : Nat → List Char → Bool) : Nat → List (List Char) → List Bool
+  | _, [] => []
+  | k, c :: cs => avail k c :: oracleAnswers avail (k + 1) cs
+
+/-- `reserved_deployment_ids` (regenerated) -/
+def reserved : List (List Char) := Gen.DeployId.reservedIds.map String.toList
+
+/-- `display_name.lower() in reserved_deployment_ids` (the model's names are already lowered) -/
+def isReserved (name : List Char) : Bool := reserved.contains name
+
+/-- the `else` branch of `create_deployment`'s id choice:
+`find_deployment_id(display_name, force_suffix=is_reserved)` -/
+def deriveId (name : List Char) (answers : List Bool) (ds : List Draw) : Option (List Char) :=
+  findId name (isReserved name) answers ds
+
+/-! ### the specification the three `re.sub` passes are meant to compute -/
+
+def consHead (c : Char) : List (List Char) → List (List Char)
+  | [] => [[c]]
+  | w :: ws => (c :: w) :: ws
+
+/-- `re.split("[^a-z0-9]", s)`: the pieces between non-alphanumerics, empty ones included -/
+def splitRaw : List Char → List (List Char)
+  | [] => [[]]
+  | c :: r => if isAlnum c then consHead c (splitRaw r) else [] :: splitRaw r
+
+/-- the maximal runs of lowercase alphanumerics, in order -/
+def words (cs : List Char) : List (List Char) := (splitRaw cs).filter fun w => !w.isEmpty
+
+/-- `"-".join(ws)` -/
+def hyphenJoin : List (List Char) → List Char
+  | [] => []
+  | [w] => w
+  | w :: w' :: ws => w ++ '-' :: hyphenJoin (w' :: ws)
 
 /-- DNS-1035 label, as `^[a-z]([a-z0-9-]{0,61}[a-z0-9])?$` in `schema/deployments.py` -/
 def isDns1035 (r : List Char) : Bool :=
